@@ -494,10 +494,10 @@ def check_merge(ctx, spec, reqs, pending, fock=False):
                 ctx.fail("merge:changed-without-merge", "a step that reports no merge changed the circuit", rp)
                 ok = False
             continue
-        if len(cl) != 1:
-            ctx.disagree("gaussian_merge step / GaussianUnitary.compile calls", spec, "1 call per merge", len(cl))
+        if not cl:
+            ctx.disagree("gaussian_merge step / GaussianUnitary.compile calls", spec, ">= 1 call per merge", len(cl))
             return
-        members, emitted = cl[0]
+        members, emitted = cl[-1]      # earlier calls belong to candidate merges that were skipped
         b_ids, a_ids = [cid(c) for c in before], [cid(c) for c in after]
         m_ids = [i for i in b_ids if i in {cid(c) for c in members}]
         e_ids = [i for i in a_ids if i in {cid(c) for c in emitted}]
@@ -512,17 +512,24 @@ def check_merge(ctx, spec, reqs, pending, fock=False):
         segs = []
         if why is None:
             # canonical intermediate order: the output order with the block collected at its first emitted command
-            first = True
-            src_groups, out_groups = [], []
-            for i in a_ids:
-                if i in e_ids:
-                    if first:
-                        segs.append(dict(block=0)); src_groups.append(m_ids); out_groups.append(e_ids)
+            # (a block that emitted nothing - its members cancel - may sit at any position)
+            def layout(pos):
+                sg, src_groups, out_groups = [], [], []
+                first = True
+                for k, i in enumerate(a_ids + [None]):
+                    if (pos is not None and k == pos) or (i is not None and i in e_ids and first):
+                        sg.append(dict(block=0)); src_groups.append(m_ids); out_groups.append(e_ids)
                         first = False
-                else:
-                    segs.append(dict(keep=i)); src_groups.append([i]); out_groups.append([i])
-            w1 = wires_respected(b_ids, src_groups, wires)
-            w2 = wires_respected([c for g in out_groups for c in g], [[i] for i in a_ids], wires)
+                    if i is not None and i not in e_ids:
+                        sg.append(dict(keep=i)); src_groups.append([i]); out_groups.append([i])
+                return sg, src_groups, out_groups
+            w1 = w2 = None
+            for pos in ([None] if e_ids else range(len(a_ids) + 1)):
+                segs, src_groups, out_groups = layout(pos)
+                w1 = wires_respected(b_ids, src_groups, wires)
+                w2 = wires_respected([c for g in out_groups for c in g], [[i] for i in a_ids], wires)
+                if not w1 and not w2:
+                    break
             if w1:
                 why = "making the merged commands adjacent is not a legal reordering of the circuit: " + w1
             elif w2:
@@ -576,7 +583,9 @@ def fock_compare(ctx, spec, prog, comp, rp):
                 ctx.tally(f"merge:fock-run-error:{type(e).__name__}")
                 return None
             kets.append((np.asarray(st.ket()), st.trace()))
-        return maxabs(kets[0][0] - kets[1][0]), min(kets[0][1], kets[1][1])
+        ov = np.vdot(kets[1][0], kets[0][0])      # a global phase is not observable
+        ph = ov / abs(ov) if abs(ov) > 1e-12 else 1.0
+        return maxabs(kets[0][0] - ph * kets[1][0]), min(kets[0][1], kets[1][1])
     r = dist(8)
     if r is None:
         return
